@@ -604,8 +604,8 @@ class ExtendedIndexedOperand(Operand):
                     additional = NumericValue(additional.int, size_hint=4)
                 else:
                     size += additional.byte_len()
-                    max_size = size
                     raw_post_byte |= 0x99 if self.left.is_extended() else 0x98
+                max_size = size
 
         return CodePackage(
             op_code=NumericValue(self.instruction.mode.ind),
@@ -740,8 +740,8 @@ class IndexedOperand(Operand):
                     additional = NumericValue(additional.int, size_hint=4)
                 else:
                     size += additional.byte_len()
-                    max_size = size
                     raw_post_byte |= 0x89 if self.left.is_extended() else 0x88
+                max_size = size
 
         return CodePackage(
             op_code=NumericValue(self.instruction.mode.ind),
